@@ -110,7 +110,26 @@ async fn run_storm(a: &Args, m: &mut mon::Mon) {
                             use solana_sdk::signer::Signer as _;
                             let i = w.ix_deposit_any(lq2, ca, lk.pubkey(), w.ta_of(lq2, ca), storm::pick(&mut r, &[1u64 << 30, 1 << 34]));
                             let only_ca = w.exec(m, &[i], &[&lk]).await.ok();
+                            // a third one that owes a little of the collateral asset: the seized collateral
+                            // must net against that debt (one side per position)
+                            let lq3 = w.add_account(g, lu).await;
+                            let i = w.ix_deposit_any(lq3, db, lk.pubkey(), w.ta_of(lq3, db), storm::pick(&mut r, &[1u64 << 30, 1 << 36]));
+                            let mut owes_ca = w.exec(m, &[i], &[&lk]).await.ok();
+                            if owes_ca {
+                                let i = w.ix_borrow(lq3, ca, lk.pubkey(), w.ta_of(lq3, ca), storm::pick(&mut r, &[50u64, 500, 5000]));
+                                owes_ca = w.exec(m, &[i], &[&lk]).await.ok();
+                            }
                             scen::liquidation(&mut w, m, &mut r, &lev, lq).await;
+                            if owes_ca {
+                                for amt in [20_000u64, 1_000_000] {
+                                    let i = w.ix_liquidate_x(lq3, lev.acct, ca, db, lk.pubkey(), amt, None);
+                                    let o = w.exec(m, &[i], &[&lk]).await;
+                                    if o.ok() {
+                                        m.r.count("C16.liquidations_by_debtor_of_collateral_bank");
+                                        break;
+                                    }
+                                }
+                            }
                             if only_ca {
                                 for d in [None, Some(ca), Some(db)] {
                                     let i = w.ix_liquidate_x(lq2, lev.acct, ca, db, lk.pubkey(), storm::pick(&mut r, &[1u64, 1000]), d);
@@ -309,6 +328,10 @@ async fn run_admin(a: &Args, m: &mut mon::Mon) {
             }
             if k == 400 && a.prop == "C13" {
                 scen::wipeout(&mut w, m, &mut r, g, s.liquidator).await;
+            }
+            if k % 200 == 120 && a.prop == "C13" {
+                w.refresh_oracles();
+                scen::emode_overlap(&mut w, m, &mut r, g, s.liquidator).await;
             }
         }
         m.r.add("storm.steps", s.steps);
